@@ -57,6 +57,33 @@ def search(S):
             except Exception as e:
                 S.check(name, "raises", inp, False, None, "%s: %s" % (type(e).__name__, str(e)[:200]), "offered operation raised")
                 break
+    # Euler groups other than the shipped B321 (any sequence, body- or space-fixed, through the public constructor):
+    # to_Matrix and Ad are offered for all of them
+    from cyecca.lie.group_so3 import SO3EulerLieGroup, EulerType, Axis, so3 as so3_alg
+    def rot(axis, a):
+        c, s_ = np.cos(a), np.sin(a)
+        return {Axis.x: np.array([[1, 0, 0], [0, c, -s_], [0, s_, c]]), Axis.y: np.array([[c, 0, s_], [0, 1, 0], [-s_, 0, c]]), Axis.z: np.array([[c, -s_, 0], [s_, c, 0], [0, 0, 1]])}[axis]
+    for et in (EulerType.body_fixed, EulerType.space_fixed):
+        for seq in ([Axis.x, Axis.y, Axis.z], [Axis.z, Axis.y, Axis.x], [Axis.z, Axis.x, Axis.z]):
+            g = SO3EulerLieGroup(euler_type=et, sequence=seq)
+            nm = "SO3Euler(%s,%s)" % (et.name, "".join(a.name for a in seq))
+            for k in range(max(2, S.budget // 40)):
+                e = rng.uniform(-3, 3, 3)
+                y = rng.normal(size=3)
+                R = np.eye(3)
+                for ax_, an in zip(seq, e):
+                    R = R @ rot(ax_, an) if et == EulerType.body_fixed else rot(ax_, an) @ R
+                try:
+                    X = g.elem(ca.DM(e))
+                    MX = L.f(X.to_Matrix()); AdX = L.f(X.Ad())
+                    S.check(nm + ".to_Matrix", "composition", {"e": e.tolist()}, H.close(MX, R, 1e-9), R.tolist(), MX.tolist(), "to_Matrix is not the composition of the elementary rotations in the declared order")
+                    hy = L.f(so3_alg.elem(ca.DM(y)).to_Matrix())
+                    conj = R @ hy @ R.T
+                    got = L.f(so3_alg.elem(ca.DM(AdX @ y)).to_Matrix())
+                    S.check(nm + ".Ad", "conjugation", {"e": e.tolist(), "y": y.tolist()}, H.close(got, conj, 1e-8), conj.tolist(), got.tolist(), "hat(Ad_X y) != X hat(y) X^-1")
+                except Exception as ex:
+                    S.check(nm, "raises", {"e": e.tolist()}, False, None, "%s: %s" % (type(ex).__name__, str(ex)[:200]), "offered operation raised")
+                    break
     # direct sums: ad is offered (block diagonal); Ad and bracket must raise NotImplementedError
     for name in ["DPa", "DPb", "DPc", "DPd", "DPe", "DPf"]:
         grp = G[name]
@@ -84,4 +111,4 @@ def search(S):
             S.check(name + "." + what, "not_implemented", {"x": x.tolist()}, raised, True, raised, "direct product %s no longer raises NotImplementedError (now in scope, unverified)" % what, nontrivial=False)
 
 
-H.run(search, "per group: random valid X, Y and algebra vectors x, y, z; Ad vs numpy conjugation, ad vs bracket vs commutator, Jacobi, Ad_exp vs scipy expm(ad), Ad homomorphism; distinct = distinct (unit, input)")
+H.run(search, "per group (plus six Euler groups of other sequences / space-fixed type built through the public constructor, and six direct sums): random valid X, Y and algebra vectors x, y, z; Ad vs numpy conjugation, ad vs bracket vs commutator, Jacobi, Ad_exp vs scipy expm(ad), Ad homomorphism; distinct = distinct (unit, input)")
